@@ -15,18 +15,18 @@ Lemma maxbud_cons : forall r rs, maxbud (r :: rs) = Nat.max (rep_bud r) (maxbud 
 Proof. reflexivity. Qed.
 
 Lemma send_reps_bud : forall pay rs i rs' calls ok,
-  send_reps pay i rs = (rs', calls, ok) ->
+  send_reps pay false i rs = (rs', calls, ok) ->
   (maxbud rs' = 0 \/ S (maxbud rs') <= maxbud rs) /\ (ok = false -> 1 <= maxbud rs).
 Proof.
   induction rs as [|r rest IH]; intros i rs' calls ok H.
   - simpl in H. inversion H; subst. simpl. split; [left; reflexivity|discriminate].
-  - simpl in H. destruct (send_reps pay (S i) rest) as [[rest' calls0] ok0] eqn:E.
+  - simpl in H. destruct (send_reps pay false (S i) rest) as [[rest' calls0] ok0] eqn:E.
     destruct (IH _ _ _ _ E) as [IA IB].
     destruct (r_written r) eqn:W.
     + inversion H; subst. rewrite !maxbud_cons.
       assert (R0 : rep_bud r = 0) by (unfold rep_bud; rewrite W; reflexivity).
       rewrite R0. simpl. split; auto.
-    + destruct (next_outcome (r_script r)) as [o sc] eqn:N0. inversion H; subst.
+    + destruct (next_outcome (r_script r)) as [o sc] eqn:N0. unfold eff in H. inversion H; subst.
       rewrite !maxbud_cons.
       assert (R1 : rep_bud r = lastbad (r_script r)) by (unfold rep_bud; rewrite W; reflexivity).
       assert (R2 : rep_bud (mkRep (accepted o) sc) = if accepted o then 0 else lastbad sc)
@@ -46,15 +46,15 @@ Lemma count_true_tl : forall fl0,
 Proof. destruct fl0 as [|[|] fl]; simpl; intros; auto. contradiction. Qed.
 
 Lemma shard_bulk_bud : forall pay sh sh' short calls ok,
-  shard_bulk pay sh = (sh', short, calls, ok) ->
+  shard_bulk pay false sh = (sh', short, calls, ok) ->
   shard_bud sh' <= shard_bud sh /\ (ok = false -> S (shard_bud sh') <= shard_bud sh).
 Proof.
   intros pay sh sh' short calls ok H. unfold shard_bulk in H.
   assert (G : forall fl0, s_open sh = fl0 -> match fl0 with true :: _ => False | _ => True end ->
-     (let '(rs', calls, ok) := send_reps pay 0 (s_reps sh) in
+     (let '(rs', calls, ok) := send_reps pay false 0 (s_reps sh) in
       (mkShard (tl fl0) rs', false, calls, ok)) = (sh', short, calls, ok) ->
      shard_bud sh' <= shard_bud sh /\ (ok = false -> S (shard_bud sh') <= shard_bud sh)).
-  { intros fl0 EO Hfl H0. destruct (send_reps pay 0 (s_reps sh)) as [[rs' calls0] ok0] eqn:E.
+  { intros fl0 EO Hfl H0. destruct (send_reps pay false 0 (s_reps sh)) as [[rs' calls0] ok0] eqn:E.
     inversion H0; subst. destruct (send_reps_bud _ _ _ _ _ _ E) as [A B].
     unfold shard_bud. simpl. rewrite (count_true_tl _ Hfl). fold (maxbud rs'). fold (maxbud (s_reps sh)).
     split; [lia|]. intros Hf. apply B in Hf. lia. }
@@ -74,16 +74,20 @@ Proof. intros. unfold bud_at. erewrite update_nth_same; eauto. Qed.
 Lemma bud_at_update_other : forall ts i g sh', i <> g -> bud_at (update ts i sh') g = bud_at ts g.
 Proof. intros. unfold bud_at. rewrite update_nth_other; auto. Qed.
 
-Lemma send_order_bud : forall t pay order ts ts' vs ok,
-  send_order t pay order ts = (ts', vs, ok) ->
-  length ts' = length ts /\
+Definition Alive (x : cx) : Prop := dead x = false /\ cancel_at x = None.
+Lemma Alive_after : forall x, Alive x -> Alive (after_visit x).
+Proof. intros x [A B]. unfold Alive, after_visit. simpl. rewrite A, B. auto. Qed.
+
+Lemma send_order_bud : forall t pay order x ts ts' x' vs ok,
+  send_order t pay order x ts = (ts', x', vs, ok) -> Alive x ->
+  Alive x' /\ length ts' = length ts /\
   (forall g, bud_at ts' g <= bud_at ts g) /\
   (ok = false -> forall g, In g order -> g < length ts -> S (bud_at ts' g) <= bud_at ts g).
 Proof.
-  induction order as [|i rest IH]; simpl; intros ts ts' vs ok H.
-  - inversion H; subst. repeat split; auto. intros _ g [].
+  induction order as [|i rest IH]; simpl; intros x ts ts' x' vs ok H HA.
+  - inversion H; subst. repeat split; auto; try apply HA. intros _ g [].
   - destruct (nth_error ts i) as [sh|] eqn:En.
-    + destruct (shard_bulk pay sh) as [[[sh' short] calls] ok0] eqn:Eb.
+    + rewrite (proj1 HA) in H. destruct (shard_bulk pay false sh) as [[[sh' short] calls] ok0] eqn:Eb.
       destruct (shard_bulk_bud _ _ _ _ _ _ Eb) as [BA BB].
       assert (Hi : bud_at ts i = shard_bud sh) by (unfold bud_at; rewrite En; reflexivity).
       assert (Hmono : forall g, bud_at (update ts i sh') g <= bud_at ts g).
@@ -91,16 +95,16 @@ Proof.
         - rewrite (bud_at_update_same _ _ _ _ En). lia.
         - rewrite bud_at_update_other; auto. }
       destruct ok0.
-      * inversion H; subst. split; [apply update_length|]. split; auto. discriminate.
-      * destruct (send_order t pay rest (update ts i sh')) as [[ts'' vs0] ok'] eqn:Er.
-        inversion H; subst. destruct (IH _ _ _ _ Er) as (A & B & C).
-        rewrite update_length in *. split; auto. split.
+      * inversion H; subst. split; [apply Alive_after; auto|]. split; [apply update_length|]. split; auto. discriminate.
+      * destruct (send_order t pay rest (after_visit x) (update ts i sh')) as [[[ts'' x''] vs0] ok'] eqn:Er.
+        inversion H; subst. destruct (IH _ _ _ _ _ _ Er (Alive_after _ HA)) as (A0 & A & B & C).
+        rewrite update_length in *. split; auto. split; auto. split.
         -- intros g. specialize (B g). specialize (Hmono g). lia.
         -- intros Hf g [<-|Hin] Hg.
            ++ specialize (B i). rewrite (bud_at_update_same _ _ _ _ En) in B.
               specialize (BB eq_refl). lia.
            ++ specialize (C Hf g Hin Hg). specialize (Hmono g). lia.
-    + destruct (IH _ _ _ _ H) as (A & B & C). split; auto. split; auto.
+    + destruct (IH _ _ _ _ _ _ H HA) as (A0 & A & B & C). split; auto. split; auto. split; auto.
       intros Hf g [<-|Hin] Hg.
       * apply nth_error_None in En. lia.
       * auto.
@@ -108,18 +112,18 @@ Qed.
 
 Definition Covers (n : nat) (o : list nat) : Prop := forall i, i < n -> In i o.
 
-Lemma send_tier_bud : forall t pay ords ts ts' ords' vs ok,
-  send_tier t pay ords ts = (ts', ords', vs, ok) ->
+Lemma send_tier_bud : forall t pay ords x ts ts' x' ords' vs ok,
+  send_tier t pay ords x ts = (ts', x', ords', vs, ok) -> Alive x ->
   Forall (Covers (length ts)) ords ->
-  length ts' = length ts /\
+  Alive x' /\ length ts' = length ts /\
   Forall (Covers (length ts)) ords' /\
   (forall g, bud_at ts' g <= bud_at ts g) /\
   (length ts = 0 -> ok = true) /\
   (ok = false -> forall g, g < length ts -> S (bud_at ts' g) <= bud_at ts g).
 Proof.
-  intros t pay ords ts ts' ords' vs ok H HF. unfold send_tier in H.
+  intros t pay ords x ts ts' x' ords' vs ok H HA HF. unfold send_tier in H.
   destruct ts as [|sh0 ts0].
-  - inversion H; subst. repeat split; auto. discriminate.
+  - inversion H; subst. split; [exact HA|]. repeat split; auto. discriminate.
   - remember (sh0 :: ts0) as ts.
     assert (HP : forall o ords1, pop_order (length ts) ords = (o, ords1) ->
                  Covers (length ts) o /\ Forall (Covers (length ts)) ords1).
@@ -128,10 +132,10 @@ Proof.
       - inversion HP; subst. inversion HF; subst. auto. }
     destruct (pop_order (length ts) ords) as [o ords1].
     destruct (HP _ _ eq_refl) as [HC HF1].
-    destruct (send_order t pay o ts) as [[ts1 vs1] ok1] eqn:E.
-    inversion H; subst ts' ords' vs ok.
-    destruct (send_order_bud _ _ _ _ _ _ _ E) as (A & B & C).
-    split; auto. split; auto. split; auto. split.
+    destruct (send_order t pay o x ts) as [[[ts1 x1] vs1] ok1] eqn:E.
+    inversion H; subst ts' x' ords' vs ok.
+    destruct (send_order_bud _ _ _ _ _ _ _ _ _ E HA) as (A0 & A & B & C).
+    split; auto. split; auto. split; auto. split; auto. split.
     + subst ts. simpl. discriminate.
     + intros Hf g Hg. apply C; auto.
 Qed.
@@ -139,7 +143,7 @@ Qed.
 Definition Pot (gc gh : nat) (s : st) : nat :=
   (if cold_w s then 0 else bud_at (cold s) gc) + bud_at (hot s) gh.
 Definition LiveOk (s : st) : Prop :=
-  Forall (Covers (length (cold s))) (cold_ord s) /\ Forall (Covers (length (hot s))) (hot_ord s).
+  (Forall (Covers (length (cold s))) (cold_ord s) /\ Alive (ctx s)) /\ Forall (Covers (length (hot s))) (hot_ord s).
 Definition Good (gc gh : nat) (s : st) : Prop :=
   (length (cold s) = 0 \/ gc < length (cold s)) /\ (length (hot s) = 0 \/ gh < length (hot s)).
 
@@ -147,24 +151,24 @@ Lemma store_docs_bud : forall pay s s' vs ok gc gh,
   store_docs pay s = (s', vs, ok) -> LiveOk s -> Good gc gh s ->
   LiveOk s' /\ Good gc gh s' /\ (ok = false -> S (Pot gc gh s') <= Pot gc gh s).
 Proof.
-  intros pay s s' vs ok gc gh H [LC LH] [GC GH]. unfold store_docs in H. unfold Pot.
+  intros pay s s' vs ok gc gh H [[LC LA] LH] [GC GH]. unfold store_docs in H. unfold Pot.
   destruct (cold_w s) eqn:CW.
-  - destruct (send_tier Hot pay (hot_ord s) (hot s)) as [[[h' ho'] vs1] ok1] eqn:E.
+  - destruct (send_tier Hot pay (hot_ord s) (ctx s) (hot s)) as [[[[h' x'] ho'] vs1] ok1] eqn:E.
     inversion H; subst.
-    destruct (send_tier_bud _ _ _ _ _ _ _ _ E LH) as (A & B & C & D & F).
-    unfold LiveOk, Good. simpl. rewrite A. repeat split; auto.
+    destruct (send_tier_bud _ _ _ _ _ _ _ _ _ _ E LA LH) as (A0 & A & B & C & D & F).
+    unfold LiveOk, Good. simpl. rewrite A. repeat split; auto; try apply A0; try apply LA.
     intros Hf. destruct GH as [GH|GH]; [rewrite (D GH) in Hf; discriminate|].
     specialize (F Hf _ GH). lia.
-  - destruct (send_tier Cold pay (cold_ord s) (cold s)) as [[[c' co'] vs1] ok1] eqn:E.
-    destruct (send_tier_bud _ _ _ _ _ _ _ _ E LC) as (A & B & C & D & F).
+  - destruct (send_tier Cold pay (cold_ord s) (ctx s) (cold s)) as [[[[c' x'] co'] vs1] ok1] eqn:E.
+    destruct (send_tier_bud _ _ _ _ _ _ _ _ _ _ E LA LC) as (A0 & A & B & C & D & F).
     destruct ok1.
-    + destruct (send_tier Hot pay (hot_ord s) (hot s)) as [[[h' ho'] vs2] ok2] eqn:E2.
+    + destruct (send_tier Hot pay (hot_ord s) x' (hot s)) as [[[[h' x''] ho'] vs2] ok2] eqn:E2.
       inversion H; subst.
-      destruct (send_tier_bud _ _ _ _ _ _ _ _ E2 LH) as (A2 & B2 & C2 & D2 & F2).
-      unfold LiveOk, Good. simpl. rewrite A, A2. repeat split; auto.
+      destruct (send_tier_bud _ _ _ _ _ _ _ _ _ _ E2 A0 LH) as (A02 & A2 & B2 & C2 & D2 & F2).
+      unfold LiveOk, Good. simpl. rewrite A, A2. repeat split; auto; try apply A02.
       intros Hf. destruct GH as [GH|GH]; [rewrite (D2 GH) in Hf; discriminate|].
       specialize (F2 Hf _ GH). lia.
-    + inversion H; subst. unfold LiveOk, Good. simpl. rewrite A. repeat split; auto.
+    + inversion H; subst. unfold LiveOk, Good. simpl. rewrite A. repeat split; auto; try apply A0.
       intros _. destruct GC as [GC|GC]; [specialize (D GC); discriminate|].
       specialize (F eq_refl _ GC). lia.
 Qed.
@@ -187,12 +191,12 @@ Lemma succeeds_when_possible_at : forall tries pay cin hin cord hord s log ok gc
   Forall (Covers (length cin)) cord -> Forall (Covers (length hin)) hord ->
   (cin = [] \/ gc < length cin) -> (hin = [] \/ gh < length hin) ->
   bud_at (map mk_shard cin) gc + bud_at (map mk_shard hin) gh < tries ->
-  store_documents tries pay cin hin cord hord = (s, log, ok) -> ok = true.
+  store_documents tries pay cin hin cord hord None = (s, log, ok) -> ok = true.
 Proof.
   intros tries pay cin hin cord hord s log ok gc gh HC HH GC GH HB H.
   destruct tries as [|k]; [lia|]. unfold store_documents in H.
   eapply attempts_live with (gc := gc) (gh := gh); eauto.
-  - split; simpl; rewrite map_length; auto.
+  - split; [split|]; simpl; try rewrite map_length; auto. split; reflexivity.
   - split; simpl; rewrite map_length.
     + destruct GC as [->|GC]; auto.
     + destruct GH as [->|GH]; auto.
@@ -228,7 +232,7 @@ Qed.
 Lemma succeeds_when_possible : forall tries pay cin hin cord hord s log ok,
   Forall (Covers (length cin)) cord -> Forall (Covers (length hin)) hord ->
   tier_bud (map mk_shard cin) + tier_bud (map mk_shard hin) < tries ->
-  store_documents tries pay cin hin cord hord = (s, log, ok) -> ok = true.
+  store_documents tries pay cin hin cord hord None = (s, log, ok) -> ok = true.
 Proof.
   intros tries pay cin hin cord hord s log ok HC HH HB H.
   assert (P : forall tin, exists g, (tin = [] \/ g < length tin) /\
@@ -269,7 +273,7 @@ Lemma succeeds_on_healthy_shard : forall tries pay cin hin cord hord s log ok,
   Forall (Covers (length cin)) cord -> Forall (Covers (length hin)) hord ->
   (cin = [] \/ exists x, In x cin /\ healthy x = true) ->
   (hin = [] \/ exists x, In x hin /\ healthy x = true) ->
-  store_documents tries pay cin hin cord hord = (s, log, ok) -> ok = true.
+  store_documents tries pay cin hin cord hord None = (s, log, ok) -> ok = true.
 Proof.
   intros tries pay cin hin cord hord s log ok Ht HC HH GC GH H.
   assert (P : forall tin, (tin = [] \/ exists x, In x tin /\ healthy x = true) ->
